@@ -17,7 +17,7 @@ RULE = (
     "(stack depth, mark positions, memo keys) are compared with the instrumented CPython "
     "pure-Python unpickler after the same opcode, for every prefix both accept; Trace.run() must "
     "print each opcode once in order, return the same program text as untraced decompilation and "
-    "leave dumps() unchanged; the CLI face of the same clause on stacks of 1-3 generated programs: "
+    "leave dumps() unchanged, also when it takes over an interpreter that was already stepped k times; the CLI face of the same clause on stacks of 1-3 generated programs: "
     "every line of `fickling FILE` appears in order among the unindented lines of `fickling --trace "
     "FILE` and no other statement does (same variable and result names across the stack). Non-trivial = program of >= 3 opcodes that contains a MARK-consuming "
     "opcode or memo traffic; distinct = distinct byte strings."
@@ -117,6 +117,27 @@ def trace_check(data):
         return f"traced program differs from untraced: {got_src!r} vs {want_src!r}"
     if p2.dumps() != before:
         return "tracing changed the serialised bytes"
+    # a trace taken over from an interpreter that has already been stepped k times reports the
+    # remaining opcodes, once, in order, and still returns the same program
+    n = len(want_names)
+    for k in sorted({1, n // 2, n - 1} - {0, n}):
+        p3 = Pickled.load(data)
+        it = Interpreter(p3)
+        buf = io.StringIO()
+        try:
+            for _ in range(k):
+                it.step()
+            with contextlib.redirect_stdout(buf):
+                tree = Trace(it).run()
+            src3 = ast.unparse(tree)
+        except Exception as e:  # noqa: BLE001
+            return f"tracing after {k} manual steps raised {type(e).__name__}: {e}"
+        names3 = [ln.strip() for ln in buf.getvalue().split("\n") if ln and not ln[0].isspace() and ln.strip() in known]
+        if names3 != want_names[k:]:
+            return (f"after {k} manual steps the trace printed opcodes {names3} but the remaining program is "
+                    f"{want_names[k:]}")
+        if src3 != want_src:
+            return f"tracing after {k} manual steps returns a different program: {src3!r} vs {want_src!r}"
     return None
 
 
